@@ -139,6 +139,16 @@ def customConstraint (tables : List (List Char)) (lit : List Char → List Char 
       some (kwAlterTable ++ sqlTableName owner ++ [' '] ++ c3 ++ [';'])
     else some (c3 ++ [';'])
 
+/-- `generateQuardConstraint`: the default and the equality check of a guard column. The value of
+the `gomacro-sql-guard` tag only has its enum placeholders expanded: no table name is replaced in it. -/
+def guardConstraints (lit : List Char → List Char → Option (List Char))
+    (owner col value : List Char) : Option (List (List Char)) :=
+  match replaceEnums lit value with
+  | none => none
+  | some v =>
+    some [kwAlterTable ++ sqlTableName owner ++ " ALTER COLUMN ".toList ++ col ++ " SET DEFAULT ".toList ++ v ++ [';'],
+          kwAlterTable ++ sqlTableName owner ++ " ADD CHECK(".toList ++ col ++ " = ".toList ++ v ++ ");".toList]
+
 /-! ### classification of `gomacro:SQL` comments -/
 
 def toUpperC (c : Char) : Char := if isLower c then Char.ofNat (c.toNat - 32) else c
